@@ -1,4 +1,4 @@
-//@@ unit props=C02,C16,C17,C20,C14,C10,C06
+//@@ unit props=C02,C16,C17,C20,C14,C10,C06,C11
 // Unit xlswb: the record dispatch `Xls::parse_workbook` of src/xls.rs (verbatim text, one 220-line function).
 //
 // What is under contract here is the WIRING: which record id reaches which record walker, with which arguments, in which order the
@@ -583,7 +583,7 @@ spec fn gsem(s: Seq<u8>, forced: Option<u16>) -> GS { g_fold(recs(s), g_init(for
 pub open spec fn name_views(list: Seq<(usize, String)>) -> Seq<Seq<char>> { Seq::new(list.len(), |i: int| list[i].1@) }
 
 //@@ impl src/xls.rs Xls nth=1
-//@@ fn src/xls.rs Xls::parse_workbook props=C02,C16,C17,C20,C14,C10 entry ret=res r4 mutparams
+//@@ fn src/xls.rs Xls::parse_workbook props=C02,C16,C17,C20,C14,C10,C11 entry ret=res r4 mutparams
 //@@ r6 0
 //@@ r6 2
 //@@ replace /let stream = (cfb\s*\.get_stream\([^;]*?\))\s*\.or_else\(\|_\|\s*([^;]*)\)\?;/ Verus rejects closures that capture `&mut` variables (cfb, reader); `a.or_else(|_| b)` is by definition `match a { Ok(v) => Ok(v), Err(_) => b }` (core::result)
@@ -598,7 +598,7 @@ let stream = (match \g<1> { Ok(__v) => Ok(__v), Err(_) => \g<2> })?;
         wb_stream(__p_cfb, __p_reader) is None ==> res is Err,
         //# C16.sheets_in_boundsheet_order
         res is Ok ==> (wb_stream(__p_cfb, __p_reader) matches Some(s) && final(self).metadata.sheets@ == old(self).metadata.sheets@ + sheets_of(gsem(s, old(self).options.force_codepage).sheets)),
-        //# C16,C10.date1904_flag
+        //# C16,C10,C11.date1904_flag
         res is Ok ==> (wb_stream(__p_cfb, __p_reader) matches Some(s) && (d1904_legal(recs(s)) ==> final(self).is_1904 == (old(self).is_1904 || has_1904(recs(s))))),
         //# C10,C16.xf_formats_resolved
         res is Ok ==> (wb_stream(__p_cfb, __p_reader) matches Some(s) && final(self).formats@ == resolve_all(gsem(s, old(self).options.force_codepage).fmts, gsem(s, old(self).options.force_codepage).xfs)),
@@ -647,7 +647,7 @@ let stream = (match \g<1> { Ok(__v) => Ok(__v), Err(_) => \g<2> })?;
                     xfs@ == g_fold(done, g0, forced).xfs,
                     //# C02.sst_wired
                     strings@ == g_fold(done, g0, forced).strings,
-                    //# C16,C10.date1904_flag
+                    //# C16,C10,C11.date1904_flag
                     d1904_legal(done) ==> self.is_1904 == (d0 || has_1904(done)),
                 ensures
                     //# C16.globals_records_until_eof
@@ -801,7 +801,7 @@ let fmla_sheet_names = { let mut __out: Vec<String> = Vec::new();
 //@@ after /_ => \(\),\s*\}/#1of2
                 proof {
                     let fpos = fmla_pos_of(sdone_in);
-                    //# C02,C10,C16.dispatch_number
+                    //# C02,C10,C16,C11.dispatch_number
                     assert(v.typ == 0x0203 ==> cells@ == cells_in + contrib(v, fpos, cc));
                     //# C02.dispatch_label
                     assert(v.typ == 0x0204 ==> cells@ == cells_in + contrib(v, fpos, cc));
@@ -809,13 +809,13 @@ let fmla_sheet_names = { let mut __out: Vec<String> = Vec::new();
                     assert(v.typ == 0x0205 ==> cells@ == cells_in + contrib(v, fpos, cc));
                     //# C02.dispatch_string_of_preceding_formula
                     assert(v.typ == 0x0207 ==> cells@ == cells_in + contrib(v, fpos, cc));
-                    //# C02,C10,C16.dispatch_rk
+                    //# C02,C10,C16,C11.dispatch_rk
                     assert(v.typ == 0x027E ==> cells@ == cells_in + contrib(v, fpos, cc));
                     //# C02.dispatch_labelsst
                     assert(v.typ == 0x00FD ==> cells@ == cells_in + contrib(v, fpos, cc));
-                    //# C02,C10,C16.dispatch_mulrk
+                    //# C02,C10,C16,C11.dispatch_mulrk
                     assert(v.typ == 0x00BD ==> cells@ == cells_in + contrib(v, fpos, cc));
-                    //# C02,C14,C10,C16.dispatch_formula_cached_value
+                    //# C02,C14,C10,C16,C11.dispatch_formula_cached_value
                     assert(is_formula(v) ==> cells@ == cells_in + contrib(v, fpos, cc));
                     //# C14.dispatch_formula_text_at_cell
                     assert(is_formula(v) ==> formulas@.len() == formulas_in.len() + 1 && formulas@.last().p() == formula_pos(v.data) && fmla_pos == formula_pos(v.data));
